@@ -1,6 +1,7 @@
 import LoraVerif.Props.C17
 import LoraVerif.Props.TieA.C17
 import LoraVerif.Props.TieA.C13E
+import LoraVerif.Props.TieA.C13EWl
 /-!
 # C17 — the module `./check C17` builds: the property theorems (`Props/C17.lean`) together with the
 tie-A equalities between the hand-written SX127x TX-power fragments they are proved about and the
